@@ -62,6 +62,8 @@ def families(tier, seed):
                                 run=_part(decl, mode, seed, n, be, part, parts), label='bounded'))
     # dd.cudd only: the Python manager needs minutes per predicate at this width
     out.append(dict(name='printing predicates over variables of 10 and more bits [cudd]', run=cc_.wide_display('cudd'), label='bounded'))
+    from contracts import optdiff as _od
+    out.append(dict(name='same results with assert statements stripped (python -O), section C08', run=_od.family('C08'), label='bounded'))
     return out
 
 
